@@ -20,10 +20,12 @@ META = {
         "tensortrax Hyperelastic wrapper with an abstract W(C) (covers every model behind it, anisotropic ones included): objectivity, P F^T symmetric, major symmetry",
         "tensortrax models neo_hooke, mooney_rivlin, yeoh, blatz_ko, lopez_pamies, saint_venant_kirchhoff: isotropy of the energy W(Q C Q^T) = W(C); "
         "stress-free reference dW/dC(I) = 0 from the real tensortrax gradient at C = I for these plus third_order_deformation, arruda_boyce, anssari_benam_bucchi, van_der_waals, alexander (symbolic parameters)",
+        "eigenvalue-based tensortrax models saint_venant_kirchhoff (k = 0, 1, 3, 4, -2: logarithmic / Seth-Hill branches), ogden, storakers, extended_tube on DIAGONAL C = diag(a, b, c), a, b, c symbolic in [0.5, 2], "
+        "the real model function with eigvalsh re-bound to its contract on a diagonal matrix (eigenvalues = diagonal entries): permutation symmetry of the energy and dW/d(a,b,c) = 0 at a = b = c = 1 (stress-free reference)",
         "total_lagrange / updated_lagrange wrappers (tensortrax back end traced through tensortrax; jax back end: the real wrapper source re-bound to NumPy primitives) around an objective S(F) resp. sigma(F)",
     ],
-    "outside": ["jax models (XLA cannot be traced; their energies are compared with the tensortrax namesakes in C12)", "eigenvalue-based and micro-sphere models", "isotropy of third_order_deformation, arruda_boyce, anssari_benam_bucchi, van_der_waals (measured: not decided within the budget)", "rotation by exactly 180 degrees about an axis (t = infinity) as a single factor"],
-    "assumptions": ["composition argument for general rotations"],
+    "outside": ["jax models (XLA cannot be traced; their energies are compared with the tensortrax namesakes in C12)", "eigenvalue-based models on non-diagonal C (LAPACK eigh and tensortrax's differentiation through it cannot be traced; on diagonal C they run with eigvalsh replaced by its contract)", "micro-sphere models", "isotropy of third_order_deformation, arruda_boyce, anssari_benam_bucchi, van_der_waals (measured: not decided within the budget)", "rotation by exactly 180 degrees about an axis (t = infinity) as a single factor"],
+    "assumptions": ["composition argument for general rotations", "stub: eigvalsh(diag(a, b, c)) = (a, b, c) in some order; det / trace / sum / log of tensortrax.math re-bound to their NumPy meaning for the principal-stretch cases"],
 }
 
 
@@ -202,6 +204,58 @@ def case_tt_reference(ctx, model):
     ctx.equal("stress_free_reference_dWdC(I)=0", g, np.zeros((3, 3), dtype=int), tol=1e-12 if model == "van_der_waals" else None, box=box)
 
 
+TT_PRINCIPAL = [
+    ("saint_venant_kirchhoff", {"k": 0}), ("saint_venant_kirchhoff", {"k": 1}), ("saint_venant_kirchhoff", {"k": 3}), ("saint_venant_kirchhoff", {"k": -2}),
+    ("saint_venant_kirchhoff", {"k": 4}), ("ogden", {}), ("storakers", {}), ("extended_tube", {}),
+]
+
+
+def tt_principal_model(ctx, model, extra):
+    c = fem.constitution
+    v = ctx.var
+    if model == "saint_venant_kirchhoff":
+        return c.saint_venant_kirchhoff, dict(mu=v("mu", 0.1, 5), lmbda=v("lmbda", 0.1, 5), k=extra["k"])
+    if model == "ogden":
+        return c.ogden, dict(mu=[v("mu1", 0.1, 5), v("mu2", -1, 1)], alpha=[3, -2])
+    if model == "storakers":
+        return c.storakers, dict(mu=[v("mu1", 0.1, 5), v("mu2", 0.1, 5)], alpha=[3, -2], beta=[v("beta1", 0.1, 5), v("beta2", 0.1, 5)])
+    if model == "extended_tube":
+        return c.extended_tube, dict(Gc=v("Gc", 0.1, 5), delta=v("delta", 0, 0.3), Ge=v("Ge", 0.1, 5), beta=1)
+    raise KeyError(model)
+
+
+def case_tt_principal(ctx, model, extra):
+    """eigenvalue-based tensortrax models on DIAGONAL right Cauchy-Green tensors C = diag(a, b, c): the real model function runs with
+    `eigvalsh` re-bound to its contract on a diagonal matrix (the eigenvalues are the diagonal entries; their order is immaterial
+    once the permutation obligation holds).  Obligations: permutation symmetry (isotropy restricted to the coordinate
+    permutations) and dW/d(a, b, c) = 0 at the reference state (stress-free reference)"""
+    import types
+
+    fun, kw = tt_principal_model(ctx, model, extra)
+    g = dict(fun.__globals__)
+    g["eigvalsh"] = lambda C: np.array([C[0, 0], C[1, 1], C[2, 2]], dtype=object if ctx.sym else float)
+    for name in ("det", "trace", "tsum", "log"):
+        if name in g:
+            g[name] = {"det": lambda C: C[0, 0] * C[1, 1] * C[2, 2], "trace": lambda C: C[0, 0] + C[1, 1] + C[2, 2],
+                       "tsum": lambda x: sum(np.asarray(x, dtype=object if ctx.sym else float).reshape(-1).tolist()), "log": np.log}[name]
+    rebound = types.FunctionType(fun.__code__, g, fun.__name__, fun.__defaults__, fun.__closure__)
+
+    def W(lam2):
+        C = np.zeros((3, 3), dtype=object if ctx.sym else float)
+        for i in range(3):
+            C[i, i] = lam2[i]
+        return np.asarray(rebound(C, **kw), dtype=object if ctx.sym else float).reshape(-1)
+
+    a, b, c_ = ctx.var("a", 0.5, 2), ctx.var("b", 0.5, 2), ctx.var("c", 0.5, 2)
+    lam = np.array([a, b, c_], dtype=object if ctx.sym else float)
+    w = W(lam)
+    box = {"atom:root": (0.3, 3), "atom:log": (-5, 5)}
+    ctx.equal("permutation_symmetry_W(b,a,c)=W(a,b,c)", W(lam[[1, 0, 2]]), w, rtol_replay=1e-9, box=box)
+    ctx.equal("permutation_symmetry_W(a,c,b)=W(a,b,c)", W(lam[[0, 2, 1]]), w, rtol_replay=1e-9, box=box)
+    one = ctx.const_array(np.ones(3))
+    ctx.equal("stress_free_reference_dW/dlambda2(I)=0", ctx.jacobian_at(W, one, name="L"), np.zeros((1, 3), dtype=int), box=box)
+
+
 def case_lagrange_wrappers(ctx, which, axis):
     """total_lagrange: P = F S(F);  updated_lagrange: P = J sigma(F) F^-T, with abstract objective S / sigma"""
     import tensortrax as tr
@@ -315,6 +369,8 @@ def cases(tier):
             out.append(("tt_energy", case_tt_energy, {"model": mname, "axis": ax}))
     for mname in TT_REF:
         out.append(("tt_reference", case_tt_reference, {"model": mname}))
+    for mname, extra in TT_PRINCIPAL:
+        out.append(("tt_principal", case_tt_principal, {"model": mname, "extra": extra}))
     for which in ("total", "updated"):
         for ax in (0, 2) if tier == "quick" else axes:
             out.append(("lagrange_wrappers", case_lagrange_wrappers, {"which": which, "axis": ax}))
